@@ -157,10 +157,11 @@ def _origin_policy(fl, ci, cred, ki, pi, tail, fi, with_origin, prior=False):
 
 
 @cond(quick=dict(S=1, SA=1, K=0, timeout=170, parts=dict(FL=[0, 1], C=list(range(len(CFGS))))),
-      thorough=dict(S=3, SA=2, K=1, timeout=1500, parts=dict(FL=[0, 1], C=list(range(len(CFGS))))))
+      thorough=dict(S=3, SA=2, K=1, timeout=1500, parts=dict(FL=[0, 1], C=list(range(len(CFGS))), KI=[0, 1])))
 def origin_symbolic_tail(fl: int, ci: int, cred: bool, ki: int, pi: int, tail: str) -> str:
     """
     pre: fl == P.FL and ci == P.C and 0 <= ki <= P.K and 0 <= pi < len(PREFIX) and len(tail) <= (P.S if P.FL == 0 else P.SA) and (P.K > 0 or not cred)
+    pre: not hasattr(P, 'KI') or ki == P.KI
     post: _ == ''
     """
     return verdict(_origin_policy(fl, ci, cred, ki, pi, tail, 0, True))
